@@ -123,11 +123,14 @@ static void handle(const Fields & q, Fields & a) {
 	}
 	if (op == "manifest") {
 		// family search_path source_path src
-		struct stack * m = NULL;
-		if (q[1] == "s") m = mmd_string_transclusion_manifest(q[4].c_str(), dirarg(q[2]), q[3].c_str());
-		else if (q[1] == "d") { DString * d = d_string_new(q[4].c_str()); m = mmd_d_string_transclusion_manifest(d, dirarg(q[2]), q[3].c_str()); d_string_free(d, true); }
-		else { mmd_engine * e = mmd_engine_create_with_string(q[4].c_str(), 0); m = mmd_engine_transclusion_manifest(e, dirarg(q[2]), q[3].c_str()); mmd_engine_free(e, true); }
-		a.push_back(manifest_str(m)); return;
+		// answers: manifest, manifest of a second call on the same object, the source text as the object holds it afterwards
+		struct stack * m = NULL, * m2 = NULL; std::string after = q[4];
+		if (q[1] == "s") { m = mmd_string_transclusion_manifest(q[4].c_str(), dirarg(q[2]), q[3].c_str()); m2 = mmd_string_transclusion_manifest(q[4].c_str(), dirarg(q[2]), q[3].c_str()); }
+		else if (q[1] == "d") { DString * d = d_string_new(q[4].c_str()); m = mmd_d_string_transclusion_manifest(d, dirarg(q[2]), q[3].c_str());
+		                        after.assign(d->str, d->currentStringLength); m2 = mmd_d_string_transclusion_manifest(d, dirarg(q[2]), q[3].c_str()); d_string_free(d, true); }
+		else { DString * d = d_string_new(q[4].c_str()); mmd_engine * e = mmd_engine_create_with_dstring(d, 0); m = mmd_engine_transclusion_manifest(e, dirarg(q[2]), q[3].c_str());
+		       after.assign(d->str, d->currentStringLength); m2 = mmd_engine_transclusion_manifest(e, dirarg(q[2]), q[3].c_str()); mmd_engine_free(e, true); }
+		a.push_back(manifest_str(m)); a.push_back(manifest_str(m2)); a.push_back(after); return;
 	}
 	if (op == "opml2text" || op == "itmz2text") {
 		// family src
